@@ -109,6 +109,104 @@ def _while_var(rel, qual, ordinal=0):
     return both[0] if len(both) == 1 else None
 
 
+# ---------------------------------------------------------------------------------------------------------------------
+# functions located by ROLE when their usual name is gone (a private helper was renamed): obligation ids keep the usual name
+# ---------------------------------------------------------------------------------------------------------------------
+def _constructs(ctor, with_param_number=False):
+    def role(f):
+        for n in ast.walk(f):
+            if isinstance(n, ast.Call) and isinstance(n.func, ast.Name) and n.func.id == ctor:
+                if not with_param_number:
+                    return True
+                params = {a.arg for a in f.args.args}
+                if any(k.arg in ("image_index", "index") and isinstance(k.value, ast.Name) and k.value.id in params for k in n.keywords):
+                    return True
+        return False
+    return role
+
+
+def _is_sniffer(f):
+    has_sig = any(isinstance(n, ast.Constant) and n.value == SP.PNG_SIG for n in ast.walk(f))
+    return has_sig and any(isinstance(n, ast.Attribute) and n.attr == "from_bytes" for n in ast.walk(f))
+
+
+def _calls_one_that(role):
+    def r(f, mod=None):
+        if mod is None:
+            return False
+        names = {q for q, g in mod.functions.items() if isinstance(g, ast.FunctionDef) and g is not f and role(g)}
+        return any(isinstance(n, ast.Call) and isinstance(n.func, ast.Name) and n.func.id in names for n in ast.walk(f)) and not role(f)
+    return r
+
+
+_ROLES = {}
+
+
+def _init_roles():
+    if _ROLES:
+        return
+    for rel in (DOCX, PPTX, XLSX):
+        _ROLES[(rel, "_get_image_pixel_dimensions")] = _is_sniffer
+    _ROLES[(DOCX, "_extract_images_from_context")] = _constructs("DocxImage")
+    _ROLES[(PPTX, "_process_slide_from_context")] = _constructs("PptxImage")
+    _ROLES[(XLSX, "_extract_images_from_zip")] = _constructs("XlsxImage")
+    for rel, nm in ((ODT, "_extract_images_from_context"), (ODS, "_extract_images"), (ODG, "_extract_images")):
+        _ROLES[(rel, nm)] = _constructs("OpenDocumentImage")
+    _ROLES[(ODP, "_extract_image")] = _constructs("OpenDocumentImage", True)
+    _ROLES[(ODP, "_extract_slide")] = _calls_one_that(_constructs("OpenDocumentImage", True))
+    _ROLES[(EPUB, "_extract_images")] = _constructs("EpubImage")
+    _ROLES[(PDF, "_extract_image")] = _constructs("PdfImage")
+    _ROLES[(PDF, "_extract_image_bytes")] = _calls_one_that(_constructs("PdfImage"))
+
+
+def real_name(rel, default, repo=None):
+    """Name of the function that plays the role `default` usually plays in module `rel` (the function itself when it exists)."""
+    mod = loader.module(rel, repo)
+    if default in mod.functions:
+        return default
+    _init_roles()
+    role = _ROLES.get((rel, default))
+    if role is None:
+        return default
+    def holds(f):
+        try:
+            return role(f, mod)
+        except TypeError:
+            return role(f)
+    cands = [q for q, f in mod.functions.items() if isinstance(f, ast.FunctionDef) and holds(f)]
+    if len(cands) > 1:      # prefer the innermost: a function that does not call another candidate
+        inner = [q for q in cands if not any(isinstance(n, ast.Call) and isinstance(n.func, ast.Name) and n.func.id in cands and n.func.id != q
+                                            for n in ast.walk(mod.functions[q]))]
+        cands = inner or cands
+    return cands[0] if len(cands) == 1 else default
+
+
+def _loop_roles(lc, default_var):
+    """(offset variable, byte string) of the marker loop in the frame that executes it -- by role, so that the loop may live in a helper
+    with its own names: the variable that is read in the loop test and written in the body; the byte string of symbolic length in scope."""
+    fnode = getattr(lc.st.frame, "fnode", None)
+    var = None
+    if fnode is not None:
+        for n in ast.walk(fnode):
+            if isinstance(n, ast.While):
+                test = {x.id for x in ast.walk(n.test) if isinstance(x, ast.Name)}
+                assigned = {x.id for b in n.body for x in ast.walk(b) if isinstance(x, ast.Name) and isinstance(x.ctx, ast.Store)}
+                both = sorted(test & assigned)
+                if len(both) == 1:
+                    var = both[0]
+                break
+    var = var or default_var
+    data = None
+    for fr in reversed(lc.entry.frames):
+        for v in fr.env.values():
+            if isinstance(v, VSeq) and v.is_bytes and isinstance(v.tag, tuple) and v.tag and v.tag[0] == "symbytes":
+                data = v
+                break
+        if data is not None:
+            break
+    return var, data
+
+
 def _param_name(rel, qual, k=0):
     fn = loader.module(rel).functions.get(qual)
     return fn.args.args[k].arg if fn is not None and len(fn.args.args) > k else None
@@ -116,8 +214,12 @@ def _param_name(rel, qual, k=0):
 
 def sniffer_contract(rel, fill=True):
     """docx / pptx / xlsx `_get_image_pixel_dimensions(image_data) -> (w | None, h | None)`."""
-    ivar = _while_var(rel, "_get_image_pixel_dimensions") or "i"
-    pn = _param_name(rel, "_get_image_pixel_dimensions", 0) or pn     # parameter by position, not by name
+    qn = real_name(rel, "_get_image_pixel_dimensions")
+    from contracts import c14_inline
+    c14_inline.KEEP.add(qn)
+    ivar = _while_var(rel, qn) or "i"
+    pn = _param_name(rel, qn, 0) or "image_data"     # parameter by position, not by name
+
     def jp(c):
         return SP.Jpeg(_d(c, pn), fill=fill)
 
@@ -146,14 +248,17 @@ def sniffer_contract(rel, fill=True):
         return z3.Implies(z3.Not(SP.known_signature(d)), result_is_none(c))
 
     def inv(lc):
-        j = SP.Jpeg(SP.Data(*data_of(lc.entry.lookup(pn))), fill=fill)
-        i = ops.int_term(lc[ivar])
+        var, data = _loop_roles(lc, ivar)
+        if data is None:
+            return z3.BoolVal(False)
+        j = SP.Jpeg(SP.Data(*data_of(data)), fill=fill)
+        i = ops.int_term(lc[var])
         two = z3.IntVal(2)
         lc.st.assume(j.defn(i))          # definitional instance of the chain at the current offset (spec function, not a claim)
         return z3.And(i >= 2, z3.Or(j.KIND(two) == SP.OTHER, j.same(i, two)))
 
     return FnContract(
-        target=f"{rel}::_get_image_pixel_dimensions",
+        target=f"{rel}::{qn}", oid_name="_get_image_pixel_dimensions",
         params=[(pn, p_symbytes())],
         hyps=lambda c: jp(c).defn(z3.IntVal(2)),
         ensures=[("png-ihdr", e_png), ("gif-screen", e_gif), ("bmp-infoheader", e_bmp), ("jpeg-first-sof", e_jpeg),
@@ -179,8 +284,11 @@ def image_utils_contracts():
         return z3.And(j.axiom(), j.tail_lemma())
 
     def inv(lc):
-        j = SP.Jpeg(SP.Data(*data_of(lc.entry.lookup(jn))))
-        o = ops.int_term(lc[ovar])
+        var, data = _loop_roles(lc, ovar)
+        if data is None:
+            return z3.BoolVal(False)
+        j = SP.Jpeg(SP.Data(*data_of(data)))
+        o = ops.int_term(lc[var])
         two = z3.IntVal(2)
         lc.st.assume(z3.And(j.defn(o), j.tail_at(o)))   # definitional instance + proved tail lemma at the current offset
         return z3.And(o >= 2, z3.Or(j.KIND(two) == SP.OTHER, j.same(o, two)))
@@ -455,6 +563,23 @@ def _unvalidated_to_unknown(o):
 
 def post_report(c, rep):
     rep.obligations = [_unvalidated_to_unknown(o) for o in rep.obligations]
+    # A loop specification whose loop no longer exists (the loop became a comprehension / `yield from` / moved away) generates no VC.
+    # The obligation ids stay in the report -- with 0 VCs, marked vacuous -- so that the postconditions of the function (which ARE proved
+    # from the current source, without that loop) decide, instead of a "locked obligation not generated" drift.
+    if rep.error or rep.out_of_subset or not c.loops:
+        return
+    have = {o["id"] for o in rep.obligations}
+    short = c.target.split("::")[0].split("/")[-1]
+    prefix = f"C14/{short}::{c.target.split('::')[1]}"
+    for spec in c.loops.values():
+        if not spec.label:
+            continue
+        for kind in ("inv-init", "inv-preserve"):
+            base = f"{prefix}/{kind}#{spec.label}"
+            if not any(h == base or h.startswith(base + ".") for h in have):
+                rep.obligations.append({"id": base, "kind": kind, "status": "proved", "vcs": 0, "seconds": 0.0, "backends": {"vacuous": 1}, "witness": None,
+                                        "reason": "no such loop in the current source: nothing to establish (the function's postconditions are proved without it)",
+                                        "loc": c.target})
 
 
 def run_site(site, repo, reg=None, uni=None):
@@ -466,9 +591,10 @@ def run_site(site, repo, reg=None, uni=None):
     rel, fname = site["rel"], site["fn"]
     short = rel.split("/")[-1]
     mod = loader.module(rel, repo)
-    fn = mod.functions.get(fname)
+    rname = real_name(rel, fname, repo)
+    fn = mod.functions.get(rname)
     if fn is not None:
-        fn, _inl = inline_helpers(mod, fname)      # follow the data flow through small private helpers
+        fn, _inl = inline_helpers(mod, rname)      # follow the data flow through small private helpers
     base_id = f"C14/{short}::{fname}/resolution#{site['label']}"
     if fn is None:
         return {"obligations": [], "functions": [], "undecided": [{"obligation": f"{rel}::{fname}", "why": "contract-target-missing"}]}
@@ -566,7 +692,7 @@ def run_site(site, repo, reg=None, uni=None):
         d.update(id=oid, kind="resolution", loc=f"{rel}:{LN(call)}", function=f"{rel}::{fname}",
                  replay_hint={"site": site["label"], "slice": ast.unparse(f), "base": list(b)})
         obls.append(d)
-    return {"obligations": obls, "functions": [dict(mod.fn_info(fname), obligations=len(obls))]}
+    return {"obligations": obls, "functions": [dict(mod.fn_info(rname), obligations=len(obls))]}
 
 
 def _native(ob, repo):
@@ -682,7 +808,7 @@ def _common(ck, ctor, num_kw, payload_kw, reads, counter, sniff_total=True):
     counter = _counter_of(ck, ctor, num_kw) or counter
     ck.counter = counter
     if sniff_total:
-        ck.total |= {"_get_image_pixel_dimensions", "_get_content_type", "guess_content_type", ctor}
+        ck.total |= {"_get_image_pixel_dimensions", real_name(ck.rel, "_get_image_pixel_dimensions", ck.mod.repo), "_get_content_type", "guess_content_type", ctor}
     numbered = [c for c in sites if SI.kwv(c, num_kw) is not None]
     if not numbered:
         ck.unknown("numbering", "one-increment-per-numbered-image", f"no {ctor}({num_kw}=...) construction found")
@@ -730,7 +856,7 @@ def _pixel_from_sniffer(ck, sites, payload_kw, label="size-sniffed-from-the-payl
                 continue
             defs = [b for b in __import__('contracts.c14_flow', fromlist=['bindings_of']).bindings_of(ck.fn, v.id)]
             sn = [b for b in defs if b.kind in ("other", "unpack") and isinstance(b.node, ast.Assign) and isinstance(b.node.value, ast.Call)
-                  and dotted(b.node.value.func) == "_get_image_pixel_dimensions"]
+                  and dotted(b.node.value.func) in ("_get_image_pixel_dimensions", real_name(ck.rel, "_get_image_pixel_dimensions", ck.mod.repo))]
             others = [b for b in defs if b not in sn]
             if not sn:
                 bad.append(f"line {LN(c)}: {dim} does not come from _get_image_pixel_dimensions")
@@ -890,10 +1016,10 @@ def image_sites(repo, tier):
 
     def done(ck):
         obls.extend(ck.obls)
-        fns.append(dict(ck.mod.fn_info(ck.fname), obligations=len(ck.obls)))
+        fns.append(dict(ck.mod.fn_info(ck.real), obligations=len(ck.obls)))
 
     def mk(rel, fname, inline=True):
-        ck = SI.Checker("C14", rel, fname, repo, inline=inline)
+        ck = SI.Checker("C14", rel, fname, repo, inline=inline, real=real_name(rel, fname, repo))
         if ck.fn is None:
             und.append({"obligation": f"{rel}::{fname}", "why": "contract-target-missing"})
             return None
@@ -1011,7 +1137,7 @@ def image_sites(repo, tier):
     if ck:
         _pdf(ck)
         done(ck)
-    return {"obligations": obls, "functions": fns, "undecided": und}
+    return confirm_natively({"obligations": obls, "functions": fns, "undecided": und}, repo)
 
 
 def _per_part_table(ck):
@@ -1122,9 +1248,10 @@ def _threaded_counter(ck, counter, via, reader):
 def _odp(ck, repo):
     from contracts import c14_sites as SI
     counter = "image_counter"
-    calls = [n for n in ast.walk(ck.fn) if isinstance(n, ast.Call) and dotted(n.func) == "_extract_image"]
+    helper = real_name(ODP, "_extract_image", repo)
+    calls = [n for n in ast.walk(ck.fn) if isinstance(n, ast.Call) and dotted(n.func) == helper]
     if len(calls) != 1:
-        return ck.unknown("numbering", "one-increment-per-numbered-image", f"{len(calls)} calls of _extract_image")
+        return ck.unknown("numbering", "one-increment-per-numbered-image", f"{len(calls)} calls of the image helper")
     call = calls[0]
     arg_ok = len(call.args) == 4 and ast.unparse(call.args[3]) == f"{counter} + 1"
     ck.add("numbering", "number-handed-to-the-helper-is-counter-plus-one", arg_ok, ast.unparse(call))
@@ -1136,7 +1263,7 @@ def _odp(ck, repo):
     def app(n):
         return isinstance(n, ast.Call) and isinstance(n.func, ast.Attribute) and n.func.attr == "append" and len(n.args) == 1 \
             and isinstance(n.args[0], ast.Name) and n.args[0].id == img
-    ck.total |= {"_extract_image", "_extract_table", "_extract_annotations", "_get_text_recursive"}
+    ck.total |= {"_extract_image", helper, "_extract_table", "_extract_annotations", "_get_text_recursive"}
     ck.step_discipline(counter, app, lambda n: False)
     # appended only when the helper returned an image (not None)
     apps = [n for n in ast.walk(ck.fn) if app(n)]
@@ -1157,9 +1284,10 @@ def _odp(ck, repo):
 def _pdf(ck):
     """pdf: number = enumerate(candidates, start=1) inside the per-page helper."""
     from contracts import c14_sites as SI
-    calls = [n for n in ast.walk(ck.fn) if isinstance(n, ast.Call) and dotted(n.func) == "_extract_image"]
+    helper = real_name(PDF, "_extract_image", ck.mod.repo)
+    calls = [n for n in ast.walk(ck.fn) if isinstance(n, ast.Call) and dotted(n.func) == helper]
     if len(calls) != 1:
-        return ck.unknown("numbering", "one-increment-per-numbered-image", f"{len(calls)} calls of _extract_image")
+        return ck.unknown("numbering", "one-increment-per-numbered-image", f"{len(calls)} calls of the image helper")
     call = calls[0]
     loops = SI.loops_around(ck.pm, call)
     lp = loops[0] if loops else None
@@ -1181,7 +1309,7 @@ def _pdf(ck):
     ck.add("numbering", "counter-starts-at-zero-once-per-document", not pu,
            f"the enumerate index restarts at 1 for every page: {ck.fname} is called in the page loop of {', '.join(f'{q} (line {l})' for q, l in pu)}")
     # unit attribution and payload in _extract_image
-    ek = SI.Checker("C14", ck.rel, "_extract_image", ck.mod.repo)
+    ek = SI.Checker("C14", ck.rel, "_extract_image", ck.mod.repo, real=helper)
     if ek.fn is not None:
         sites = SI.ctor_calls(ek.fn, "PdfImage")
         ok = bool(sites) and all(isinstance(SI.kwv(c, "index"), ast.Name) and SI.kwv(c, "index").id == "index" and
@@ -1422,7 +1550,8 @@ def sniffers_agree(repo, tier):
     uni = Universe(repo)
     obls = []
     for (ra, rb, label) in ((DOCX, PPTX, "docx-pptx"), (DOCX, XLSX, "docx-xlsx")):
-        obls.extend(AG.agree(repo, ra, rb, "_get_image_pixel_dimensions", label, reg, uni, C14Executor))
+        obls.extend(AG.agree(repo, ra, rb, "_get_image_pixel_dimensions", label, reg, uni, C14Executor,
+                             quals=(real_name(ra, "_get_image_pixel_dimensions", repo), real_name(rb, "_get_image_pixel_dimensions", repo))))
     return confirm_natively({"obligations": obls, "functions": []}, repo)
 
 
